@@ -54,6 +54,8 @@ pub fn base_file(kind: usize) -> Vec<u8> {
 enum OpKind {
     Stop,
     Create(usize),
+    /// a typed value whose conversion creates a further indirect object (an indexed colour space with a large table)
+    CreateNested,
     Update(usize, usize), // target, value
     Promise,
     Fulfil(usize),
@@ -69,6 +71,7 @@ const OPS: &[(&str, OpKind)] = &[
     ("create:dictA", OpKind::Create(2)),
     ("create:stream", OpKind::Create(4)),
     ("create:name", OpKind::Create(1)),
+    ("create:typed-value-with-nested-object", OpKind::CreateNested),
     ("update:direct3<-dictA", OpKind::Update(0, 2)),
     ("update:direct3<-dictB", OpKind::Update(0, 3)),
     ("update:direct3<-int", OpKind::Update(0, 0)),
@@ -213,6 +216,40 @@ macro_rules! run_history {
                             break 'run;
                         }
                     },
+                    OpKind::CreateNested => {
+                        let table: Vec<u8> = (0..768u32).map(|i| (i % 251) as u8).collect();
+                        let cs = pdf::object::ColorSpace::Indexed(Box::new(pdf::object::ColorSpace::DeviceRGB), 255, table.clone().into());
+                        match st.create(cs) {
+                            Ok(rc) => {
+                                let outer = rc.get_ref().get_inner();
+                                // the value must be [/Indexed /DeviceRGB 255 <reference to another new object holding the table>]
+                                let inner = match st.resolver().resolve(outer) {
+                                    Ok(Primitive::Array(a)) if a.len() == 4 => match &a[3] {
+                                        Primitive::Reference(r) if r.id != outer.id => Some(*r),
+                                        _ => None,
+                                    },
+                                    _ => None,
+                                };
+                                match inner {
+                                    Some(inner) => {
+                                        model.insert(outer.id, Val::Array(vec![Val::name("Indexed"), Val::name("DeviceRGB"), Val::Int(255), Val::Ref(inner.id, 0)]));
+                                        model.insert(inner.id, Val::Stream(vec![], table));
+                                        written.push(outer.id);
+                                        written.push(inner.id);
+                                        last_created = Some(outer);
+                                    }
+                                    None => {
+                                        verdict = Err(("created-nested-object-wrong".into(), format!("created colour space {} reads as {:?}", outer.id, st.resolver().resolve(outer).map(|p| crate::common::show_prim(&p)).map_err(|e| err_variant(&e)))));
+                                        break 'run;
+                                    }
+                                }
+                            }
+                            Err(e) => {
+                                verdict = Err((format!("create-error:{}", err_variant(&e)), String::new()));
+                                break 'run;
+                            }
+                        }
+                    }
                     OpKind::Update(target, v) => {
                         let r = match target {
                             0 => PlainRef { id: 3, gen: 0 },
@@ -482,7 +519,7 @@ pub fn history_case(ch: &mut Chooser, t: &mut Tally) {
 pub fn run(tier: Tier, _seed: u64, tally: &mut Tally) -> CheckMeta {
     let depth = if tier.thorough() { 5 } else { 4 };
     DEPTH.store(depth, Ordering::Relaxed);
-    explore("c09.history", Limits::new(0).wall(if tier.thorough() { 3000 } else { 150 }), tally, history_case);
+    explore("c09.history", Limits::new(0).wall(if tier.thorough() { 3000 } else { 600 }), tally, history_case);
     tally.validated = tally.evaluations;
     tally.sample(json!({"base": "xref-stream+objstm", "cache": "cached", "history": ["get:compressed5", "update:compressed5<-dictA", "save"]}));
     tally.sample(json!({"base": "junk-before-header", "history": ["create:int", "save", "update:last-created<-dictB", "save"]}));
@@ -490,7 +527,7 @@ pub fn run(tier: Tier, _seed: u64, tally: &mut Tally) -> CheckMeta {
     CheckMeta {
         prop: "C09",
         level: "model_checking",
-        rule: format!("every history of <= {} operations over a {}-symbol alphabet (create of 4 value kinds, update of a direct / compressed / stream / created / fulfilled object, of object 0 and of an object number that is free in one base and in use in the others (a refused update must leave the document as it was), promise, fulfil, typed reads, save, an update with an unserialisable value and its repair) x 4 base files (classic, xref stream + object stream, junk before the header, two revisions the second of which frees an object) x {{uncached, SyncCache}} executed on a real Storage; after every step every tracked reference is read (resolve and typed get) and compared with a map reference model; after every successful save the previous bytes must be a prefix, the independent structural reader must accept the output and find the model values, and a reload must resolve written references to the last value and untouched objects (incl. stream data) to their old value; a save with an unserialisable object must fail and a later save succeed. Ill-formed histories (fulfil without promise, save with an open promise) are skipped.", depth, OPS.len() - 1),
+        rule: format!("every history of <= {} operations over a {}-symbol alphabet (create of 4 value kinds and of a typed value whose conversion creates a second object, update of a direct / compressed / stream / created / fulfilled object, of object 0 and of an object number that is free in one base and in use in the others (a refused update must leave the document as it was), promise, fulfil, typed reads, save, an update with an unserialisable value and its repair) x 4 base files (classic, xref stream + object stream, junk before the header, two revisions the second of which frees an object) x {{uncached, SyncCache}} executed on a real Storage; after every step every tracked reference is read (resolve and typed get) and compared with a map reference model; after every successful save the previous bytes must be a prefix, the independent structural reader must accept the output and find the model values, and a reload must resolve written references to the last value and untouched objects (incl. stream data) to their old value; a save with an unserialisable object must fail and a later save succeed. Ill-formed histories (fulfil without promise, save with an open promise) are skipped.", depth, OPS.len() - 1),
         assumptions: vec!["a promise that is never fulfilled before save is outside the property".into()],
         exhaustive: true,
         bounds: json!({"depth": depth}),
